@@ -59,7 +59,10 @@ class LtlAstParserVisitor(LtlParserVisitor):
         # Identifier is a constant
         if id in self.const_val_dict:
             val = self.const_val_dict[id]
-            node = Constant(float(val))
+            try:
+                node = Constant(float(val))
+            except ValueError:
+                raise RTAMTException('The value {} of the constant {} is not supported'.format(val, id))
             self.phi_name_to_node_dict[node.name] = node
         # Identifier is either an input variable or a sub-formula
         elif id in self.var_subspec_dict:
@@ -218,7 +221,10 @@ class LtlAstParserVisitor(LtlParserVisitor):
         return node
 
     def visitExprLiteral(self, ctx):
-        val = float(ctx.literal().getText())
+        try:
+            val = float(ctx.literal().getText())
+        except ValueError:
+            raise RTAMTException('The literal {} is not supported'.format(ctx.literal().getText()))
         node = Constant(val)
         self.phi_name_to_node_dict[node.name] = node
         return node
